@@ -598,8 +598,17 @@ def task_native(ctx):
     dst, msg = native.shared_build()
     if dst is None:
         raise RuntimeError('extensions could not be built: %s' % msg)
-    r = native.run_venv(REPLAY, dict(built=dst, trials=trials), timeout=1800,
-                        cwd='/tmp')
+    try:
+        r = native.run_venv(REPLAY, dict(built=dst, trials=trials), timeout=1800,
+                            cwd='/tmp')
+    except RuntimeError as e:
+        # the real code died under the scenarios (segfault, abort): a
+        # failing case, not a checker error
+        ctx.bounded_check('native.process_died', 'the scenarios of this '
+                          'stand-in, run in one process', 1, False,
+                          dict(problem='the process running the real '
+                               'code died', output=str(e)[-400:]))
+        return
     bound = ('9 scenario groups on the built extensions: box wrap across '
              'every face of a non-cubic box; mirror corner velocities; two '
              'and three arrays; three updates; particles exactly on the '
